@@ -170,13 +170,52 @@ def insertRef (eq : Chunk → Bool) (new : Chunk) : List Chunk → List Chunk
   | [] => [new]
   | c :: rest => if eq c then new :: rest else c :: insertRef eq new rest
 
+/-- `blk->io_seq_num = n` -/
+def Blk.withSeq (b : Blk) (n : Nat) : Blk := { b with seq := n }
+
+@[simp] theorem Blk.withSeq_seq (b : Blk) (n : Nat) : (b.withSeq n).seq = n := rfl
+@[simp] theorem Blk.withSeq_flags (b : Blk) (n : Nat) : (b.withSeq n).flags = b.flags := rfl
+@[simp] theorem Blk.withSeq_data (b : Blk) (n : Nat) : (b.withSeq n).data = b.data := rfl
+@[simp] theorem Blk.withSeq_chk (b : Blk) (n : Nat) : (b.withSeq n).chk = b.chk := rfl
+@[simp] theorem Blk.withSeq_index (b : Blk) (n : Nat) : (b.withSeq n).index = b.index := rfl
+@[simp] theorem Blk.withSeq_inode (b : Blk) (n : Nat) : (b.withSeq n).inode = b.inode := rfl
+
 /-- hand the open fragment block to the pool: it is numbered now -/
 def FSt.close (P : Params) (F : FSt) : FSt :=
   match F.opn with
   | none => F
   | some fb =>
     { F with opn := none, closed := (fb.index, fb.data) :: F.closed,
-             stream := F.stream ++ [processBlock P { fb with seq := F.stream.length }] }
+             stream := F.stream ++ [processBlock P (fb.withSeq F.stream.length)] }
+
+/-- the open block is closed first when a fragment of `len` bytes does not fit -/
+def FSt.makeRoom (P : Params) (F : FSt) (len : Nat) : FSt :=
+  match F.opn with
+  | some fb => if fb.data.length + len > P.B then F.close P else F
+  | none => F
+
+/-- the fragment becomes the new open block (next table index, offset 0) or is appended to the open one;
+result: new state, index, offset -/
+def FSt.place (F : FSt) (x : Blk) : FSt × Nat × Nat :=
+  match F.opn with
+  | none =>
+    ({ F with ntbl := F.ntbl + 1,
+              opn := some { x with index := F.ntbl, flags := (x.flags &&& blkDontCompress) ||| blkFragmentBlock } }, F.ntbl, 0)
+  | some fb =>
+    ({ F with opn := some { fb with data := fb.data ++ x.data, flags := fb.flags ||| (x.flags &&& blkDontCompress) } },
+     fb.index, fb.data.length)
+
+/-- a fragment that was not found in the table is stored and recorded -/
+def FSt.store (P : Params) (F : FSt) (x : Blk) : FSt :=
+  let r := (F.makeRoom P x.data.length).place x
+  let kf := x.flags &&& blkDontCompress
+  { r.1 with ht := insertRef (chunkEqRef P.byteCompare r.1 x.data x.chk kf) ⟨r.2.1, r.2.2, x.data.length, x.chk, kf⟩ r.1.ht,
+             effs := r.1.effs ++ mkEff x.inode (.fragLoc r.2.1 r.2.2) }
+
+/-- the table lookup of `process_completed_fragment` -/
+def FSt.lookup (P : Params) (F : FSt) (x : Blk) : Option Chunk :=
+  if !hasFlag x.flags blkDontDeduplicate then F.ht.find? (chunkEqRef P.byteCompare F x.data x.chk (x.flags &&& blkDontCompress))
+  else none
 
 /-- one item handed back by the pool (already worked) -/
 def fStep (P : Params) (F : FSt) (x : Blk) : FSt :=
@@ -184,27 +223,10 @@ def fStep (P : Params) (F : FSt) (x : Blk) : FSt :=
     if hasFlag x.flags blkIsSparse then
       { F with effs := F.effs ++ mkEff x.inode (.sparse x.index x.data.length) }
     else
-      let kf := x.flags &&& blkDontCompress
-      match (if !hasFlag x.flags blkDontDeduplicate then F.ht.find? (chunkEqRef P.byteCompare F x.data x.chk kf) else none) with
+      match F.lookup P x with
       | some c => { F with effs := F.effs ++ mkEff x.inode (.fragLoc c.index c.offset) }
-      | none =>
-        let F1 := match F.opn with
-          | some fb => if fb.data.length + x.data.length > P.B then F.close P else F
-          | none => F
-        let index := match F1.opn with
-          | none => F1.ntbl
-          | some fb => fb.index
-        let offset := match F1.opn with
-          | none => 0
-          | some fb => fb.data.length
-        let F2 : FSt := match F1.opn with
-          | none => { F1 with ntbl := F1.ntbl + 1,
-                              opn := some { x with index := index, flags := (x.flags &&& blkDontCompress) ||| blkFragmentBlock } }
-          | some fb => { F1 with opn := some { fb with data := fb.data ++ x.data, flags := fb.flags ||| (x.flags &&& blkDontCompress) } }
-        let new : Chunk := ⟨index, offset, x.data.length, x.chk, kf⟩
-        { F2 with ht := insertRef (chunkEqRef P.byteCompare F2 x.data x.chk kf) new F2.ht,
-                  effs := F2.effs ++ mkEff x.inode (.fragLoc index offset) }
-  else { F with stream := F.stream ++ [{ x with seq := F.stream.length }] }
+      | none => F.store P x
+  else { F with stream := F.stream ++ [x.withSeq F.stream.length] }
 
 def fRun (P : Params) (F : FSt) (xs : List Blk) : FSt := xs.foldl (fStep P) F
 
